@@ -39,7 +39,7 @@ impl MessageCursor {
             let amount = usize::min(self.data.len() - self.index, dest.len());
             if amount > 0 {
                 let dest_slice = &mut dest[..amount];
-                let source_slice = &self.data[..amount];
+                let source_slice = &self.data[self.index..self.index + amount];
 
                 dest_slice.copy_from_slice(source_slice);
 
@@ -105,7 +105,7 @@ impl<T> Read for WebsocketStreamWrapper<T> where T : Read + Write {
             }
 
             if let Some(current_message) = &mut self.current_read_message {
-                bytes_read += current_message.read(buf);
+                bytes_read += current_message.read(&mut buf[bytes_read..]);
             }
 
             if bytes_read < buf.len() {
